@@ -178,14 +178,18 @@ theorem rpcTimeout_by_source (ops maxT t : Int) (h1 : t ≠ -1) (h0 : t ≠ 0) :
 
 /-- The full obligation on the regenerated call-site table (`Generated/C05RpcSites.lean`, go/ast
     over driver/netconf): EVERY `sendRPC` call gets options built by `NewOperation`, and
-    `NewOperation` initialises `Timeout` with `defaultTimeout`. It does not hold on the current
-    tree: `EstablishPeriodicSubscription` passes `&OperationOptions{}` (known finding C05-F16). -/
+    `NewOperation` initialises `Timeout` with `defaultTimeout`. It did not hold on the pinned
+    tree (`EstablishPeriodicSubscription` passed `&OperationOptions{}`, finding C05-F16, repaired
+    by `2056bb3`); it holds since, and is an obligation of every run. -/
 def sendRPC_sites_all_from_NewOperation : Prop :=
   (Gen.C05Rpc.sites.all fun s => s.viaNewOperation) = true ∧
   Gen.C05Rpc.newOperationSetsDefaultTimeout = true
 
-/-- the part that holds (and must keep holding): every `sendRPC` call site other than the recorded
-    one builds its options with `NewOperation`, whose `Timeout` starts as `defaultTimeout`, which
+theorem sendRPC_sites_all_from_NewOperation_holds : sendRPC_sites_all_from_NewOperation := by
+  unfold sendRPC_sites_all_from_NewOperation; decide
+
+/-- kept from before the repair (weaker; the recorded exception is no longer needed): every
+    `sendRPC` call site other than the once-recorded one builds its options with `NewOperation`, whose `Timeout` starts as `defaultTimeout`, which
     is the `-1` sentinel (see `default_perOp_is_connection_wide`); the table is the full set of
     public operations. A new operation, or an existing one, that hands `sendRPC` a struct literal
     breaks this obligation. -/
